@@ -73,6 +73,9 @@ M = [
  ('C17-d', 'C17', 'core/wl/arg.py', "            return color(int_color, str(self.value))\n\n    class Float", "            return color(int_color, str(self.value)) if not color_output else color(int_color, hex(self.value))\n\n    class Float", 1),
  ('C19-pa', 'C19', 'frontends/tui/arguments.py', "        wayland_debug_args,\n        command_args\n    )", "        wayland_debug_args,\n        command_args[:3]\n    )", 1),
  ('C13-pa', 'C13', 'frontends/tui/arguments.py', "    show_unprocessed_output = not bool(args.supress)", "    show_unprocessed_output = bool(args.supress)", 1),
+ ('C18-c', 'C18', 'core/matcher.py', "    while i > 0 and _is_letter(text[i - 1]):", "    while i >= 0 and _is_letter(text[i - 1]):", 1),
+ ('C18-d', 'C18', 'core/matcher.py', "    while i <= len(text):\n        c = text[i] if i < len(text) else ''", "    while i <= len(text):\n        c = text[i] if i <= len(text) else ''", 1),
+ ('C18-e', 'C18', 'core/matcher.py', "    '\"' : '\"',\n}", "}", 1),
  ('C16-a', 'C16', 'frontends/tui/controller.py', 'if delta > 1.0:', 'if delta >= 1.0:', 1),
  ('C16-b', 'C16', 'frontends/tui/controller.py', "                ')')\n            self.last_shown_timestamp = None", "                ')')", 1),
  ('C06-a', 'C06', 'frontends/tui/controller.py', 'if self.current_connection is None or connection == self.current_connection:', 'if True:', 1),
